@@ -24,6 +24,11 @@
      harness's handles (BALANCE), and the table it predicts - every stored node (the
      garbage of a failed run included) with its level, its children up to renaming and its
      REFERENCE COUNT - must be the table the real manager shows after the operation.
+     (GLUE: decided by the EXTRACTED, PROVED checker [Model.iso_core] of coq/DD/IsoCheck.v with reference counts,
+     onto, no fixed ids: a bijective renaming of the node ids under which level, stored level, children, tags and
+     reference count of every node agree, C20_iso_check_sound / _complete; the former hand-written [profile]
+     comparison words the message when the checker rejects - statistic [iso_disagree] if it finds no difference -
+     and is run on every accepted table as well when GLUE_CROSS=1 is set)
    - C14y (other rule sets): kind=bcdd / zbdd (cap < 100) and kind=mtbdd (cap < 100 or cap >= 4096: no
      background collection; header field tcap = capacity of the terminal store): the extracted bounded
      models of coq/Mgr/OomBcdd.v, OomZbdd.v, OomMtbdd.v (no cache, sequential recursor) are run on the
@@ -187,6 +192,7 @@ let profile (tbl : (int * int list, int) Hashtbl.t) (s : Model.snap) : (int * st
     (List.map (fun (id, nd) -> (key { Model.eref = Model.RN id; Model.etag = false }, string_of_n nd.Model.nrc))
        (Model.PositiveMap.elements s.Model.s_nodes))
 
+let glue_cross = Sys.getenv_opt "GLUE_CROSS" <> None
 let show_profile l = String.concat " " (List.map (fun (k, rc) -> Printf.sprintf "%d:%s" k rc) l)
 
 type pred = { pcode : int; pcount : int; pfull : int; ptable : vt option; pwhat : string; pdst : int; pstep : int;
@@ -358,16 +364,26 @@ let () =
                     (match p.pown with
                      | Some (own_snap, own_toks) when not !failed ->
                        stat (if p.pcode = 1 then "own_predictions" else "own_predictions_ok") 1;
-                       let tbl = Hashtbl.create 64 in
-                       let exp = profile tbl own_snap and got = profile tbl ps.snap in
+                       stat "iso_extracted_checks" 1;
+                       stat "iso_disagree" 0;
+                       let accepted = Model.iso_core true true (fun _ -> false) own_snap ps.snap [] <> None in
+                       let profiles () =
+                         let tbl = Hashtbl.create 64 in
+                         let exp = profile tbl own_snap in
+                         let got = profile tbl ps.snap in
+                         (exp, got) in
+                       if accepted && glue_cross then (let exp, got = profiles () in if exp <> got then stat "iso_disagree" 1);
                        if own_toks <> int_of_nat (Model.snap_tokens ps.snap) then
                          fail p.pstep "prop"
                            (Printf.sprintf "%s at capacity %d (%s): the ownership model owns %d edges afterwards, the harness holds %d handles"
                               p.pwhat cap (if p.pcode = 1 then "failed" else "result stored") own_toks (int_of_nat (Model.snap_tokens ps.snap)))
-                       else if exp <> got then
+                       else if not accepted then begin
+                         let exp, got = profiles () in
+                         if exp = got then stat "iso_disagree" 1;
                          fail p.pstep "prop"
                            (Printf.sprintf "%s at capacity %d %s: stored nodes with reference counts afterwards (node:count) %s, the ownership model (every acquired edge released) says %s"
                               p.pwhat cap (if p.pcode = 1 then "failed with out-of-memory" else "returned a result") (show_profile got) (show_profile exp))
+                       end
                      | _ -> ())
                   | None -> ());
                  if predictable then (
